@@ -14,7 +14,7 @@ SMOKE = [
     ('MC_ModelCache', 'MC_ModelCache_prefixcode.cfg', 'ReturnedForKey'),
     ('MergeMech', 'MC_Merge_sweep.cfg', None),
     ('MergeMech', 'MC_Merge_tokens.cfg', None),
-    ('MergeMech', 'MC_Merge_addto_noenv.cfg', 'AddDisjoint'),
+    ('MergeMech', 'MC_Merge_addto_prefix.cfg', 'AddDisjoint'),
     ('Purity', 'MC_Purity_threadctx.cfg', 'ParsePure'),
     ('IntValue', 'MC_IntValue_smoke.cfg', None),
     ('ChoiceMatch', 'MC_ChoiceMatch.cfg', ('ScoreInUnit', 'NoRaise')),
